@@ -220,9 +220,9 @@ Proof. exact wif_range. Qed.
 Print Assumptions C09_wif_range.
 
 (* ================================================================== CONVERSE DIRECTION
-   decode, then encode: which texts the decoders accept, and that accepted (canonical) texts
-   are exactly the encoders' outputs.  Statements named _refuted exhibit concrete texts showing
-   that a side condition cannot be dropped; every witness was replayed on the implementation. *)
+   decode, then encode: the decoders and parsers accept EXACTLY the encoders' outputs (code after
+   the fixes cfb8181, 00bc7dc, adc6e07, 87f2a60, 6e4d66f, which repaired the counterexamples
+   the earlier _refuted statements of this file exhibited). *)
 
 (* ------------------------------------------------------------------ Base58Check *)
 
@@ -263,31 +263,44 @@ Print Assumptions C09_base58check_encode_injective.
 
 (* ------------------------------------------------------------------ WIF *)
 
-(* PrivateKey.parse(w) = (secret, mainnet, compressed): the secret is in [1, N-1], and when the
-   payload has one of the two WIF lengths (33 / 34 bytes), wif() of the parsed key is w itself *)
+(* PrivateKey.parse(w) = (secret, mainnet, compressed): the secret is in [1, N-1], wif() of the
+   parsed key is w itself, and the payload has 33 (uncompressed) / 34 (compressed) bytes
+   (the length side condition of the earlier statement is gone: fix 6e4d66f) *)
 Theorem C09_wif_parse_encode :
   forall (hash256 : bytes -> bytes), (forall x, length (hash256 x) = 32%nat) ->
   forall w secret mainnet compressed,
   wif_parse hash256 w = Ok (secret, mainnet, compressed) ->
   1 <= secret < secp_n /\
+  wif_encode hash256 secret mainnet compressed = Ok w /\
   exists raw, raw_decode_base58 hash256 w = Ok raw /\
-    (compressed = true -> length raw = 34%nat) /\
-    ((compressed = true \/ length raw = 33%nat) ->
-     wif_encode hash256 secret mainnet compressed = Ok w).
+              length raw = (if compressed then 34 else 33)%nat.
 Proof. exact wif_parse_encode. Qed.
 Print Assumptions C09_wif_parse_encode.
 
-(* the length condition cannot be dropped: Base58Check(80 01) parses as the same key as the
-   51-character WIF of the secret 1 (known finding C09-wif-parse-any-length) *)
-Theorem C09_wif_parse_short_payload_refuted :
+(* PrivateKey.parse accepts exactly the WIF texts *)
+Theorem C09_wif_parse_iff :
   forall (hash256 : bytes -> bytes),
   (forall x, length (hash256 x) = 32%nat) -> (forall x, bytes_ok (hash256 x)) ->
-  exists w1 w2, w1 <> w2 /\
-    wif_encode hash256 1 true false = Ok w1 /\
-    encode_base58_checksum hash256 [128; 1] = Ok w2 /\
-    wif_parse hash256 w1 = Ok (1, true, false) /\ wif_parse hash256 w2 = Ok (1, true, false).
-Proof. exact wif_parse_short_payload_refuted. Qed.
-Print Assumptions C09_wif_parse_short_payload_refuted.
+  forall w secret mainnet compressed,
+  wif_parse hash256 w = Ok (secret, mainnet, compressed) <->
+  wif_encode hash256 secret mainnet compressed = Ok w.
+Proof. exact wif_parse_iff. Qed.
+Print Assumptions C09_wif_parse_iff.
+
+Theorem C09_wif_parse_injective :
+  forall (hash256 : bytes -> bytes),
+  (forall x, length (hash256 x) = 32%nat) -> (forall x, bytes_ok (hash256 x)) ->
+  forall w1 w2 r, wif_parse hash256 w1 = Ok r -> wif_parse hash256 w2 = Ok r -> w1 = w2.
+Proof. exact wif_parse_inj. Qed.
+Print Assumptions C09_wif_parse_injective.
+
+(* the former counterexample: Base58Check(80 01) is rejected *)
+Theorem C09_wif_short_payload_rejected :
+  forall (hash256 : bytes -> bytes),
+  (forall x, length (hash256 x) = 32%nat) -> (forall x, bytes_ok (hash256 x)) ->
+  exists w, encode_base58_checksum hash256 [128; 1] = Ok w /\ wif_parse hash256 w = Err.
+Proof. exact wif_short_payload_rejected. Qed.
+Print Assumptions C09_wif_short_payload_rejected.
 
 (* ------------------------------------------------------------------ Bech32 / Bech32m *)
 
@@ -307,38 +320,34 @@ Theorem C09_decode_bech32_wf :
 Proof. exact decode_bech32_wf. Qed.
 Print Assumptions C09_decode_bech32_wf.
 
-(* Shape of every accepted text, and the converse of the round trip: if the separator is '1',
-   there are fewer than 5 padding bits and they are zero, the text is exactly
-   encode_bech32_checksum of the decoded (version, program) on the decoded network.
+(* Decode then encode is the identity on EVERY accepted text (no side condition any more), and
+   every accepted text has the shape prefix ++ "1" ++ version ++ body ++ 6 checksum symbols with
+   fewer than 5 padding bits, all zero.
    pad_bits body = 5*|body| mod 8, pad_value body = (body as a base-32 number) mod 2^pad_bits. *)
 Theorem C09_segwit_decode_encode :
   forall a net v prog,
   decode_bech32 a = Ok (net, v, prog) ->
-  exists hrp sep body chk,
-    a = hrp ++ [sep] ++ map b32c (v :: body ++ chk) /\ prefix_of net = Ok hrp /\
-    known_hrp hrp /\ (hrp = hrp_bcrt \/ sep = 49) /\
-    Forall sym5 (v :: body ++ chk) /\ length chk = 6%nat /\
-    (sep = 49 -> pad_bits body < 5 -> pad_value body = 0 ->
-     encode_bech32_checksum (witness_program v prog) net = Ok a).
+  encode_bech32_checksum (witness_program v prog) net = Ok a /\
+  exists hrp body chk,
+    a = hrp ++ [49] ++ map b32c (v :: body ++ chk) /\ prefix_of net = Ok hrp /\
+    known_hrp hrp /\ Forall sym5 (v :: body ++ chk) /\ length chk = 6%nat /\
+    pad_bits body < 5 /\ pad_value body = 0.
 Proof. exact segwit_decode_encode. Qed.
 Print Assumptions C09_segwit_decode_encode.
 
-(* the same with the conditions stated on the text alone ([canonical_text]) ... *)
-Theorem C09_segwit_decode_encode_canonical :
-  forall a net v prog,
-  decode_bech32 a = Ok (net, v, prog) -> canonical_text a ->
-  encode_bech32_checksum (witness_program v prog) net = Ok a.
-Proof. exact segwit_decode_encode_canonical. Qed.
-Print Assumptions C09_segwit_decode_encode_canonical.
+(* ... so decode_bech32 is injective ... *)
+Theorem C09_decode_bech32_injective :
+  forall a1 a2 r, decode_bech32 a1 = Ok r -> decode_bech32 a2 = Ok r -> a1 = a2.
+Proof. exact decode_bech32_inj. Qed.
+Print Assumptions C09_decode_bech32_injective.
 
-(* ... so that decode_bech32 is injective on canonical texts ... *)
-Theorem C09_segwit_decode_canonical_injective :
-  forall a1 a2 r, canonical_text a1 -> canonical_text a2 ->
-  decode_bech32 a1 = Ok r -> decode_bech32 a2 = Ok r -> a1 = a2.
-Proof. exact segwit_decode_canonical_inj. Qed.
-Print Assumptions C09_segwit_decode_canonical_injective.
+(* ... every accepted text is canonical ... *)
+Theorem C09_decode_bech32_canonical :
+  forall a r, decode_bech32 a = Ok r -> canonical_text a.
+Proof. exact decode_bech32_canonical. Qed.
+Print Assumptions C09_decode_bech32_canonical.
 
-(* ... and canonical texts are exactly what the encoder produces (versions 0..16, 2..40 bytes) *)
+(* ... every encoder output is canonical (versions 0..16, 2..40 bytes) ... *)
 Theorem C09_segwit_encode_is_canonical :
   forall net v prog a,
   0 <= v <= 16 -> bytes_ok prog -> (2 <= length prog <= 40)%nat -> 0 <= net <= 3 ->
@@ -346,27 +355,37 @@ Theorem C09_segwit_encode_is_canonical :
 Proof. exact segwit_encode_is_canonical. Qed.
 Print Assumptions C09_segwit_encode_is_canonical.
 
-(* None of the conditions can be dropped.  wA2 is BIP173's INVALID vector "non-zero padding":
-   decode_bech32 accepts it with the result of the valid wA1 ... *)
-Theorem C09_decode_nonzero_padding_refuted :
-  wA1 <> wA2 /\ decode_bech32 wA1 = Ok (1, 0, wA_prog) /\ decode_bech32 wA2 = Ok (1, 0, wA_prog) /\
-  encode_bech32_checksum (witness_program 0 wA_prog) 1 = Ok wA1.
-Proof. exact decode_nonzero_padding_refuted. Qed.
-Print Assumptions C09_decode_nonzero_padding_refuted.
+(* ... and the accepted set, exactly.  REMAINING LENIENCY of decode_bech32 itself, visible in the
+   ranges: any version symbol 0..31 (BIP173: 0..16) and any program length 2..40 whatever the
+   version (BIP141: 20 or 32 for version 0); both are decided by the address parsers below.
+   Upper-case texts are rejected (BIP173 allows them). *)
+Theorem C09_decode_bech32_iff :
+  forall a net v prog,
+  decode_bech32 a = Ok (net, v, prog) <->
+  ((net = 0 \/ net = 1 \/ net = 3) /\ 0 <= v < 32 /\ bytes_ok prog /\ (2 <= length prog <= 40)%nat /\
+   encode_bech32_checksum (witness_program v prog) net = Ok a).
+Proof. exact decode_bech32_iff. Qed.
+Print Assumptions C09_decode_bech32_iff.
 
-(* ... five zero padding bits (BIP173: more than 4 is invalid) are accepted ... *)
-Theorem C09_decode_long_padding_refuted :
-  wB1 <> wB2 /\ decode_bech32 wB1 = Ok (0, 0, wB_prog) /\ decode_bech32 wB2 = Ok (0, 0, wB_prog) /\
-  encode_bech32_checksum (witness_program 0 wB_prog) 0 = Ok wB1.
-Proof. exact decode_long_padding_refuted. Qed.
-Print Assumptions C09_decode_long_padding_refuted.
+(* the round trip for every version symbol the codec handles *)
+Theorem C09_segwit_roundtrip_all_versions :
+  forall net v prog,
+  0 <= v < 32 -> bytes_ok prog -> (2 <= length prog <= 40)%nat -> 0 <= net <= 3 ->
+  exists addr, encode_bech32_checksum (witness_program v prog) net = Ok addr /\
+               decode_bech32 addr = Ok (net_back net, v, prog).
+Proof. exact segwit_roundtrip32. Qed.
+Print Assumptions C09_segwit_roundtrip_all_versions.
 
-(* ... and the character after "bcrt" is never looked at *)
-Theorem C09_decode_regtest_separator_refuted :
-  wC1 <> wC2 /\ decode_bech32 wC1 = Ok (3, 0, wB_prog) /\ decode_bech32 wC2 = Ok (3, 0, wB_prog) /\
-  encode_bech32_checksum (witness_program 0 wB_prog) 3 = Ok wC1.
-Proof. exact decode_regtest_separator_refuted. Qed.
-Print Assumptions C09_decode_regtest_separator_refuted.
+(* the former counterexamples: wA2 = BIP173's invalid "non-zero padding" vector, wB2 = five
+   padding bits (fix cfb8181), wC2 = "bcrtx..." (fix 00bc7dc) are rejected; wD (version 0,
+   21-byte program) is still decoded by decode_bech32 and rejected by the parsers only *)
+Theorem C09_decode_former_witnesses :
+  decode_bech32 wA1 = Ok (1, 0, wA_prog) /\ decode_bech32 wA2 = Err /\
+  decode_bech32 wB1 = Ok (0, 0, wB_prog) /\ decode_bech32 wB2 = Err /\
+  decode_bech32 wC1 = Ok (3, 0, wB_prog) /\ decode_bech32 wC2 = Err /\
+  decode_bech32 wD = Ok (0, 0, wD_prog) /\ length wD_prog = 21%nat.
+Proof. exact decode_former_witnesses. Qed.
+Print Assumptions C09_decode_former_witnesses.
 
 (* ------------------------------------------------------------------ the five templates, uniformly *)
 
@@ -393,81 +412,70 @@ Theorem C09_std_address_injective :
 Proof. exact std_address_injective. Qed.
 Print Assumptions C09_std_address_injective.
 
-(* TxOut.to_address returns only the five templates with hashes of the right length; a canonical
-   segwit text / a Base58Check text with the version byte of (template, network) is the address
-   of the returned scriptPubKey: address -> script -> address *)
-Theorem C09_to_address_converse :
-  forall (hash256 : bytes -> bytes), (forall x, length (hash256 x) = 32%nat) ->
-  forall a cs, to_address_spk hash256 a = Ok cs ->
-  exists t h, std_template t h /\ cs = std_script t h /\
-    ((2 <= t /\ exists net, (net = 0 \/ net = 1 \/ net = 3) /\
-                 decode_bech32 a = Ok (net, seg_version t, h) /\
-                 (canonical_text a -> std_address hash256 t h net = Ok a)) \/
-     (t < 2 /\ exists ver, raw_decode_base58 hash256 a = Ok (ver :: h) /\
-                 forall net, ver = b58_version t net -> std_address hash256 t h net = Ok a)).
-Proof. exact to_address_converse. Qed.
-Print Assumptions C09_to_address_converse.
-
-(* the same for address_to_script_pubkey (which checks no hash length: the returned commands have
-   one of the five SHAPES, tied to the decoder that accepted the text) *)
-Theorem C09_address_to_script_pubkey_converse :
-  forall (hash256 : bytes -> bytes), (forall x, length (hash256 x) = 32%nat) ->
-  forall a cs, address_to_script_pubkey hash256 a = Ok cs ->
-  (exists t raw, (t = 0 \/ t = 1) /\ raw_decode_base58 hash256 a = Ok raw /\
-      cs = b58_script t (skipn 1 raw) /\
-      forall net, raw = b58_version t net :: skipn 1 raw ->
-                  std_address hash256 t (skipn 1 raw) net = Ok a) \/
-  (exists t h net, (t = 2 \/ t = 3 \/ t = 4) /\ decode_bech32 a = Ok (net, seg_version t, h) /\
-      cs = seg_script t h /\ (canonical_text a -> std_address hash256 t h net = Ok a)).
-Proof. exact address_to_script_pubkey_converse. Qed.
-Print Assumptions C09_address_to_script_pubkey_converse.
-
-(* KNOWN FINDING C09-parsers-accept-non-addresses.  The parsers accept more than the addresses:
-   (1) BIP173's invalid non-zero-padding vector gives the same P2WSH script as the valid address *)
-Theorem C09_address_parsers_padding_refuted :
+(* THE BIJECTION IN BOTH DIRECTIONS.  TxOut.to_address accepts a text with result cs exactly
+   when the text is the address of cs, cs one of the five templates, on some network ... *)
+Theorem C09_to_address_iff :
   forall (hash256 : bytes -> bytes),
-  wA1 <> wA2 /\
+  (forall x, length (hash256 x) = 32%nat) -> (forall x, bytes_ok (hash256 x)) ->
+  forall a cs,
+  to_address_spk hash256 a = Ok cs <->
+  exists t h net, std_template t h /\ 0 <= net <= 3 /\ cs = std_script t h /\
+                  std_address hash256 t h net = Ok a.
+Proof. exact to_address_iff. Qed.
+Print Assumptions C09_to_address_iff.
+
+(* ... and so does address_to_script_pubkey (fixes adc6e07, 87f2a60) ... *)
+Theorem C09_address_to_script_pubkey_iff :
+  forall (hash256 : bytes -> bytes),
+  (forall x, length (hash256 x) = 32%nat) -> (forall x, bytes_ok (hash256 x)) ->
+  forall a cs,
+  address_to_script_pubkey hash256 a = Ok cs <->
+  exists t h net, std_template t h /\ 0 <= net <= 3 /\ cs = std_script t h /\
+                  std_address hash256 t h net = Ok a.
+Proof. exact address_to_script_pubkey_iff. Qed.
+Print Assumptions C09_address_to_script_pubkey_iff.
+
+(* ... so the two parsers agree on every text ... *)
+Theorem C09_parsers_agree :
+  forall (hash256 : bytes -> bytes),
+  (forall x, length (hash256 x) = 32%nat) -> (forall x, bytes_ok (hash256 x)) ->
+  forall a cs, address_to_script_pubkey hash256 a = Ok cs <-> to_address_spk hash256 a = Ok cs.
+Proof. exact parsers_agree. Qed.
+Print Assumptions C09_parsers_agree.
+
+(* ... and address -> script is injective among the addresses of one network *)
+Theorem C09_parser_injective_per_network :
+  forall (hash256 : bytes -> bytes),
+  (forall x, length (hash256 x) = 32%nat) -> (forall x, bytes_ok (hash256 x)) ->
+  forall t1 h1 t2 h2 net a1 a2 cs,
+  std_template t1 h1 -> std_template t2 h2 -> 0 <= net <= 3 ->
+  std_address hash256 t1 h1 net = Ok a1 -> std_address hash256 t2 h2 net = Ok a2 ->
+  to_address_spk hash256 a1 = Ok cs -> to_address_spk hash256 a2 = Ok cs -> a1 = a2.
+Proof. exact parser_injective_per_network. Qed.
+Print Assumptions C09_parser_injective_per_network.
+
+(* the former counterexamples are rejected by both parsers (for every hash256) *)
+Theorem C09_former_witnesses_rejected :
+  forall (hash256 : bytes -> bytes),
   address_to_script_pubkey hash256 wA1 = Ok (p2wsh_script wA_prog) /\
-  address_to_script_pubkey hash256 wA2 = Ok (p2wsh_script wA_prog) /\
   to_address_spk hash256 wA1 = Ok (p2wsh_script wA_prog) /\
-  to_address_spk hash256 wA2 = Ok (p2wsh_script wA_prog) /\
-  p2wsh_address wA_prog 1 = Ok wA1.
-Proof. exact address_parsers_padding_refuted. Qed.
-Print Assumptions C09_address_parsers_padding_refuted.
-
-(* (2) a 43-character text with 5 padding bits is read by TxOut.to_address as the P2WPKH script
-   of the 42-character address *)
-Theorem C09_to_address_long_padding_refuted :
-  forall (hash256 : bytes -> bytes),
-  wB1 <> wB2 /\
+  address_to_script_pubkey hash256 wA2 = Err /\ to_address_spk hash256 wA2 = Err /\
   to_address_spk hash256 wB1 = Ok (p2wpkh_script wB_prog) /\
-  to_address_spk hash256 wB2 = Ok (p2wpkh_script wB_prog) /\
-  address_to_script_pubkey hash256 wB2 = Err /\
-  p2wpkh_address wB_prog 0 = Ok wB1.
-Proof. exact to_address_long_padding_refuted. Qed.
-Print Assumptions C09_to_address_long_padding_refuted.
+  address_to_script_pubkey hash256 wB2 = Err /\ to_address_spk hash256 wB2 = Err /\
+  address_to_script_pubkey hash256 wD = Err /\ to_address_spk hash256 wD = Err.
+Proof. exact former_witnesses_rejected. Qed.
+Print Assumptions C09_former_witnesses_rejected.
 
-(* (3) address_to_script_pubkey tests the length of the text, not of the program: a version-0
-   scriptPubKey with a 21-byte program comes back *)
-Theorem C09_address_to_script_pubkey_length_refuted :
-  forall (hash256 : bytes -> bytes),
-  address_to_script_pubkey hash256 wD = Ok (p2wpkh_script wD_prog) /\ length wD_prog = 21%nat /\
-  to_address_spk hash256 wD = Err.
-Proof. exact address_to_script_pubkey_length_refuted. Qed.
-Print Assumptions C09_address_to_script_pubkey_length_refuted.
-
-(* (4) the Base58Check version byte is never compared: for EVERY 20-byte hash, the text of
-   0x70 :: h starts with 'n', is read as P2PKH(h) by both parsers and is no address at all *)
-Theorem C09_base58_version_ignored_refuted :
+(* the Base58Check version byte is compared: for EVERY 20-byte hash, the text of 0x70 :: h
+   (which starts with 'n' and reaches the P2PKH branch) is rejected by both parsers *)
+Theorem C09_base58_foreign_version_rejected :
   forall (hash256 : bytes -> bytes),
   (forall x, length (hash256 x) = 32%nat) -> (forall x, bytes_ok (hash256 x)) ->
   forall h, bytes_ok h -> length h = 20%nat ->
   exists a, encode_base58_checksum hash256 (112 :: h) = Ok a /\
-            address_to_script_pubkey hash256 a = Ok (p2pkh_script h) /\
-            to_address_spk hash256 a = Ok (p2pkh_script h) /\
-            forall t h' net, (t = 0 \/ t = 1) -> bytes_ok h' -> b58_address hash256 t h' net <> Ok a.
-Proof. exact base58_version_ignored_refuted. Qed.
-Print Assumptions C09_base58_version_ignored_refuted.
+            address_to_script_pubkey hash256 a = Err /\ to_address_spk hash256 a = Err.
+Proof. exact base58_foreign_version_rejected. Qed.
+Print Assumptions C09_base58_foreign_version_rejected.
 
 (* ------------------------------------------------------------------ other entry points *)
 
@@ -552,13 +560,6 @@ Proof.
   - cbn. lia.
   - vm_compute. reflexivity.
 Qed.
-(* ... and the invalid BIP173 vector is not canonical, although decode_bech32 accepts it *)
-Example ex_not_canonical : ~ canonical_text wA2.
-Proof.
-  intros C. pose proof (proj1 (proj2 (proj2 decode_nonzero_padding_refuted))) as D.
-  pose proof (segwit_decode_encode_canonical wA2 1 0 wA_prog D C) as E.
-  rewrite (proj2 (proj2 (proj2 decode_nonzero_padding_refuted))) in E. discriminate.
-Qed.
 Example ex_std_template : std_template 4 wA_prog /\ std_template 0 wB_prog.
 Proof.
   split; (split; [apply bytes_okb_ok; vm_compute; reflexivity|]); [right|left]; split; auto.
@@ -573,7 +574,7 @@ Proof.
 Qed.
 Example ex_raw_serialize : raw_serialize (mk_script [Op 82; Push [2; 1]; Op 174]) = Ok [82; 2; 2; 1; 174].
 Proof. reflexivity. Qed.
-(* version 17 is accepted by decode_bech32 (BIP173 allows 0..16 only) and re-encodes to itself *)
+(* remaining leniency: version 17 is accepted by decode_bech32 (BIP173 allows 0..16 only) *)
 Example ex_version_17 :
   decode_bech32 [98;99;49;51;113;113;113;113;106;103;103;102;122;113] = Ok (0, 17, [0; 0]) /\
   encode_bech32_checksum (witness_program 17 [0; 0]) 0 = Ok [98;99;49;51;113;113;113;113;106;103;103;102;122;113].
